@@ -438,7 +438,7 @@ def drv_lowpass_analytic(tier, chunk):
                'Fx None / per-population from %s, sim_threshold=1 (analytic) and 0.01 checked where no entry is simulated; random non-negative '
                'models (dense, sfs-like, sparse, unmasked corners; scales 1e-3..1e4): output finite, >=-1e-15*scale, total<=uncorrected '
                'total*(1+1e-12), == s * dense tensordot re-assembly from the oracle no-call/projection/miscall matrices with one scalar '
-               '0<=s<=min_i P(enough covered in pop i) (rel 1e-9 F=0 / %g F>0), second call (precalc cache) bit-identical' % (nc, F_GRID, 10 * TOL_F))
+               '0<=s<=min_i P(enough covered in pop i) (rel 1e-9 F=0 / %g F>0; all-ancestral output bin excluded), second call (precalc cache) bit-identical' % (nc, F_GRID, 10 * TOL_F))
     nprng = d.nprng()
     for _ in range(chunk * 1000):
         d.rng.random()
@@ -477,8 +477,13 @@ def drv_lowpass_analytic(tier, chunk):
                 tot_in, tot_out = float(dense.sum()), _total(out)
                 tol = (1e-9 if all(F == 0 for F in Fl) else 10 * TOL_F) * scale
                 # the enough-covered probability enters as one scalar s; it must not exceed any population's own probability
-                s_hat = tot_out / float(want.sum()) if want.sum() > 0 else 0.0
-                err = float(numpy.max(numpy.abs(arr - s_hat * want))) if list(arr.shape) == list(want.shape) else float('inf')
+                # the all-ancestral bin [0,..,0] is left out of the value comparison: it is not a site class, and an entry whose no-call
+                # probability is 1 up to round-off may be routed to the simulator, which parks its (uncalled) mass there
+                w0, a0 = want.copy(), arr.copy()
+                if list(arr.shape) == list(want.shape):
+                    w0.flat[0] = a0.flat[0] = 0.0
+                s_hat = float(a0.sum()) / float(w0.sum()) if w0.sum() > 0 else 0.0
+                err = float(numpy.max(numpy.abs(a0 - s_hat * w0))) if list(arr.shape) == list(want.shape) else float('inf')
                 ok_s = 0 <= s_hat <= min(penough) * (1 + (1e-9 if all(F == 0 for F in Fl) else 10 * TOL_F)) + 1e-15
                 ok_shape = list(arr.shape) == [m + 1 for m in nsub]
                 ok_fin = bool(numpy.all(numpy.isfinite(arr)) and arr.min() >= -1e-15 * scale)
